@@ -647,7 +647,11 @@ class LiteralUnmarshaller(AbstractUnmarshaller[LiteralT], tp.Generic[LiteralT]):
         # Try the input as given, then its text (for bytes-like inputs),
         #   then the value which that text encodes.
         # Return the declared literal, not whatever compared equal to it (e.g., `True` for `1`).
+        # A literal of the candidate's own class wins: `True == 1`, yet `Literal[True, 1]` declares both.
         for candidate in (val, serdes.decode(val), serdes.load(val)):
+            for literal in self.values:
+                if literal.__class__ is candidate.__class__ and literal == candidate:
+                    return literal
             for literal in self.values:
                 if literal == candidate:
                     return literal
